@@ -70,7 +70,7 @@ def gen_cases(rng, tier):
 
 
 def normalize_impl(case, s):
-    return s.strip()
+    return s.split("\tpin=")[0].strip()
 
 
 def normalize_model(case, s):
@@ -86,6 +86,10 @@ def oracle(case, impl):
     """the property text evaluated directly on the recorded choice"""
     if "PANIC" in impl:
         return ["panic: " + impl[:300]]
+    if "\tpin=" in impl:
+        impl, _, pin = impl.partition("\tpin=")
+        if pin.strip() != "ok":
+            return ["three requests with one pinned target info (transport 10.0.0.77:7777, destination 192.0.2.50:7000) went out as %s: a pinned transport and destination are reused" % pin.strip()]
     us, ua, uport = case[5].split(":")
     secure = us == "1"
     want_port = int(uport) if uport != "-" else (5061 if secure else 5060)
